@@ -457,5 +457,95 @@ pub fn run(ctx: &Ctx) {
             std::process::exit(75);
         }
     }
+    // ---- a second guard asked for by the thread that already holds one. In the library as it stands this
+    // blocks for good (the thread waits for itself), which is mutual exclusion taken literally; the thread is
+    // then lost and keeps the lock, so each of these trials is the last thing its process does (exit 75 = the
+    // parent starts a new child for the next case). If the second guard IS granted, the trial goes on to see
+    // whether that lets two threads in at once, or lets a preventer holder see a fake.
+    for (k, script) in ["injector-in-injector/outer-dropped-first", "preventer-in-injector", "injector-in-preventer/outer-dropped-first"].iter().enumerate() {
+        let idx = configs.len() as u64 + k as u64;
+        if !ctx.mine(idx) || tsan {
+            continue;
+        }
+        let class = format!("second-guard-on-the-holding-thread/{}", script);
+        out::intent(idx, &class, &J::new().s("crash_sig", "nested-guard"));
+        let (tx, rx) = std::sync::mpsc::channel::<(u32, i32)>();
+        let (go_tx, go_rx) = std::sync::mpsc::channel::<()>();
+        let kk = k;
+        std::thread::spawn(move || {
+            let _lib = ip::LibScope::enter();
+            match kk {
+                0 => {
+                    let outer = InjectorPP::new();
+                    let _ = tx.send((1, 0));
+                    let mut inner = InjectorPP::new(); // blocks here in the library as it stands
+                    inner.when_called(injectorpp::func!(fn (shared)(i32) -> i32)).will_execute_raw(injectorpp::func!(fn (t9)(i32) -> i32));
+                    drop(outer);
+                    let _ = tx.send((2, shared(0)));
+                    let _ = go_rx.recv(); // keep `inner` alive until the main thread has looked
+                    drop(inner);
+                }
+                1 => {
+                    let mut outer = InjectorPP::new();
+                    outer.when_called(injectorpp::func!(fn (shared)(i32) -> i32)).will_execute_raw(injectorpp::func!(fn (t9)(i32) -> i32));
+                    let _ = tx.send((1, 0));
+                    let p = InjectorPP::prevent(); // blocks here in the library as it stands
+                    let _ = tx.send((2, shared(0)));
+                    let _ = go_rx.recv();
+                    drop(p);
+                    drop(outer);
+                }
+                _ => {
+                    let outer = InjectorPP::prevent();
+                    let _ = tx.send((1, 0));
+                    let mut inner = InjectorPP::new(); // blocks here in the library as it stands
+                    inner.when_called(injectorpp::func!(fn (shared)(i32) -> i32)).will_execute_raw(injectorpp::func!(fn (t9)(i32) -> i32));
+                    drop(outer);
+                    let _ = tx.send((2, shared(0)));
+                    let _ = go_rx.recv();
+                    drop(inner);
+                }
+            }
+        });
+        let first = rx.recv_timeout(Duration::from_secs(20));
+        let second = rx.recv_timeout(Duration::from_millis(1500));
+        let mut sig = "";
+        let mut d = J::new().s("script", script);
+        match (first, second) {
+            (Ok(_), Ok((_, seen))) => {
+                d = d.b("second_guard_granted_to_the_holding_thread", true).n("holder_sees", seen);
+                if k == 1 && seen != ORIG {
+                    // it holds a preventer and calls the function: a fake answered
+                    sig = "preventer-holder-observed-a-fake";
+                }
+                // the thread still holds its inner guard: nobody else may be admitted now
+                let (utx, urx) = std::sync::mpsc::channel::<i32>();
+                std::thread::spawn(move || {
+                    let p = InjectorPP::prevent();
+                    let _ = utx.send(shared(0));
+                    drop(p);
+                });
+                match urx.recv_timeout(Duration::from_millis(1500)) {
+                    Ok(v) => {
+                        d = d.b("another_thread_admitted_while_the_inner_guard_lives", true).n("it_saw", v);
+                        if sig.is_empty() {
+                            sig = "two-holders-at-once";
+                        }
+                    }
+                    Err(_) => d = d.b("another_thread_admitted_while_the_inner_guard_lives", false),
+                }
+                let _ = go_tx.send(());
+            }
+            (Ok(_), Err(_)) => d = d.b("second_guard_granted_to_the_holding_thread", false).s("note", "the holding thread waits for itself: exclusion holds, nothing further to observe"),
+            (Err(_), _) => {
+                out::outcome(idx, &class, Verdict::Inconclusive, "first-guard-not-obtained-within-20s", &d);
+                out::summary(&J::new().n("nested_guard_trials", 1));
+                std::process::exit(75);
+            }
+        }
+        out::outcome(idx, &class, if sig.is_empty() { Verdict::Held } else { Verdict::Violated }, sig, &d);
+        out::summary(&J::new().n("nested_guard_trials", 1));
+        std::process::exit(75);
+    }
     out::summary(&J::new().n("configs", configs.len()).o("counters", ip::counters_json()));
 }
